@@ -19,6 +19,7 @@ import json
 import os
 import random
 import shutil
+import sys
 from pathlib import Path
 
 import doc_common as dc
@@ -336,6 +337,7 @@ def run(ctx):
                                                 for m in ctx.model_findings]
     # ---------------- T: direct exploration of the real code
     allevents += explore(ctx, mins, rnd, quick)
+    allevents += kill_pass(ctx, mins, quick)
     ctx.evaluations = len(allevents)
     for e in [x for x in allevents if x["op"] == "ret"][:3]:
         ctx.sample({k: e[k] for k in ("scenario", "kind", "ok", "asked", "startfile", "endfile") if k in e})
@@ -351,6 +353,109 @@ def run(ctx):
     # a model-level counterexample that the real code does not reproduce means the model is wrong
     for m in ctx.model_findings:
         pass
+
+
+def kill_pass(ctx, mins, quick):
+    """crash points at the real system-call boundary (strace SIGKILL injection): events for Trace_ProfileCache"""
+    import hashlib
+    import c15_kill as K
+    from core import REPO
+    if shutil.which("strace") is None:
+        ctx.extra["syscall_kill_points"] = "strace not available"
+        return []
+    url = "https://k.invalid/ofx"
+    prof = {dt: ofx_server.profile(mins, url, dtprofup="202001%02d000000.000[+0:UTC]" % dt).encode() for dt in (1, 2, 3)}
+    uptodate = ofx_server.profile(mins, url, status="1", with_profrs=False).encode()
+    base = os.path.join(ctx.work, "kill")
+    os.makedirs(base, exist_ok=True)
+    evs = []
+    npoints = 0
+
+    def classify(datadir):
+        d = os.path.join(datadir, "ofxtools", "fiprofiles")
+        files = [f for f in (os.listdir(d) if os.path.isdir(d) else []) if f.endswith(".profrs")]
+        if not files:
+            return {"k": "absent", "srv": "", "dt": 0}
+        data = open(os.path.join(d, files[0]), "rb").read()
+        for dt, b in prof.items():
+            if data == b:
+                return {"k": "whole", "srv": "s1", "dt": dt}
+        return {"k": "corrupt", "srv": "", "dt": len(data)}
+
+    def answer(datadir, which):
+        p = os.path.join(base, "answer.bin")
+        open(p, "wb").write(which)
+        return p
+    for pre in (False, True):
+        title = "rewrite of a cached profile" if pre else "first download"
+        # calibration: the same scenario, untouched, under strace
+        cal = os.path.join(base, "cal-%d" % pre)
+        shutil.rmtree(cal, ignore_errors=True)
+        if pre:
+            rc, res = K.run_child(sys.executable, REPO, cal, answer(cal, prof[1]), os.path.join(base, "res.json"))
+            if not (res and res["ok"]):
+                raise MachineryError("kill pass: preparing the cache failed: %r" % (res,))
+        log = os.path.join(base, "cal.log")
+        rc, res = K.run_child(sys.executable, REPO, cal, answer(cal, prof[2]), os.path.join(base, "res.json"), strace_args=[], log=log)
+        if not (res and res["ok"]) or classify(cal) != {"k": "whole", "srv": "s1", "dt": 2}:
+            raise MachineryError("kill pass: calibration run failed: %r %r" % (res, classify(cal)))
+        points = K.calibrate(log, os.path.join(cal, "ofxtools", "fiprofiles"))
+        if not any(n == "write" for n, _, _ in points):
+            raise MachineryError("kill pass: no write to the cache seen by strace: %r" % (points,))
+        if quick:
+            keep = [pt for pt in points if pt[0] in ("write", "rename", "renameat", "renameat2")]
+            points = keep[:1] + keep[-1:] + [pt for pt in points if pt[0] == "openat"][-1:]
+        for name, ordinal, text in points:
+            d = os.path.join(base, "run-%d-%s-%d" % (pre, name, ordinal))
+            shutil.rmtree(d, ignore_errors=True)
+            hid = "kill%d" % npoints
+            evs.append({"id": hid + "-env", "op": "env", "keys": ["k1"]})
+            start = {"k": "absent", "srv": "", "dt": 0}
+            if pre:
+                K.run_child(sys.executable, REPO, d, answer(d, prof[1]), os.path.join(base, "res.json"))
+                start = classify(d)
+                evs.append({"id": hid + "-pre", "op": "io", "tid": "t0", "step": "cache prepared", "key": "k1", "srv": "s1", "file": start})
+            klog = os.path.join(base, "kill.log")
+            rc, res = K.run_child(sys.executable, REPO, d, answer(d, prof[2]), os.path.join(base, "res.json"),
+                                  strace_args=["-e", "inject=%s:signal=SIGKILL:when=%d" % (name, ordinal)], log=klog)
+            last = [l for l in open(klog, errors="replace") if K.LINE.match(l)]
+            killed = res is None and any("SIGKILL" in l for l in open(klog, errors="replace"))
+            where = last[-1].strip()[:140] if last else "?"
+            if not killed or ("fiprofiles" not in where and name not in ("write", "close", "fsync")):
+                # the N-th call of this run was not the one calibrated (start-up differed): no verdict from this point
+                ctx.extra.setdefault("kill_points_not_reproduced", []).append("%s#%d: %s" % (name, ordinal, where))
+                shutil.rmtree(d, ignore_errors=True)
+                evs.pop() if not pre else (evs.pop(), evs.pop())
+                continue
+            step = "SIGKILL entering %s #%d (%s; %s)" % (name, ordinal, title, text.split("(", 1)[0].split()[-1])
+            evs.append({"id": hid + "-k", "op": "io", "tid": "t1", "step": step, "key": "k1", "srv": "s1", "file": classify(d)})
+            # a restarted client asks again: first "up to date" (when something is cached), then a newer profile
+            for j, (kind, ans, sent) in enumerate((("uptodate", uptodate, 0), ("newer", prof[3], 3))):
+                before = classify(d)
+                if kind == "uptodate" and before["k"] != "whole":
+                    continue
+                rc, res = K.run_child(sys.executable, REPO, d, answer(d, ans), os.path.join(base, "res.json"))
+                after = classify(d)
+                ok = bool(res and res["ok"])
+                retdt = 0
+                if ok:
+                    for dt, b in prof.items():
+                        if res["ret"].encode() == b:
+                            retdt = dt
+                asked = 0 if not res or not res["asked"] or res["asked"].startswith("1990") else int(res["asked"][6:8])
+                evs.append({"id": "%s-f%d" % (hid, j), "op": "io", "tid": "t2", "step": "restarted client: " + kind, "key": "k1", "srv": "s1",
+                            "file": after})
+                evs.append({"id": "%s-r%d" % (hid, j), "op": "ret", "tid": "t2", "key": "k1", "srv": "s1", "kind": kind, "asked": asked,
+                            "posted": bool(res and res["asked"]), "sentdt": sent, "ok": ok, "prof": {"srv": "s1" if retdt else "", "dt": retdt},
+                            "startfile": before, "endfile": after, "concurrent": False, "crashed": False,
+                            "exc": (res or {}).get("exc", "no result"), "unchanged": True})
+            for e in evs:
+                e.setdefault("scenario", "syscall kill: %s" % step)
+            ctx.nontrivial.add("syscall kill: %s %s #%d" % (title, name, ordinal))
+            npoints += 1
+            shutil.rmtree(d, ignore_errors=True)
+    ctx.extra["syscall_kill_points"] = npoints
+    return evs
 
 
 def replay_pair(ctx, mins, name):
